@@ -831,6 +831,24 @@ def substitute_new_locals(fn, known_locals):
                  for d in ast.walk(scope) if d is not scope):
             continue
           free = {n.id for n in ast.walk(s.value) if isinstance(n, ast.Name)}
+          # a container read by the expression that is changed in place
+          # later (stack.pop(), d[k] = v, x.append(...)) makes the
+          # expression time-dependent: `top = stack[-1]` is a snapshot
+          changed_in_place = set()
+          for x in ast.walk(fn):
+            if isinstance(x, ast.Call) and isinstance(
+                x.func, ast.Attribute) and isinstance(
+                    x.func.value, ast.Name) and x.func.attr in (
+                        'append', 'extend', 'pop', 'insert', 'remove',
+                        'clear', 'sort', 'reverse', 'update', 'add',
+                        'discard', 'setdefault', 'popitem'):
+              changed_in_place.add(x.func.value.id)
+            if isinstance(x, (ast.Subscript, ast.Attribute)) and isinstance(
+                x.ctx, (ast.Store, ast.Del)) and isinstance(
+                    x.value, ast.Name):
+              changed_in_place.add(x.value.id)
+          if free & changed_in_place:
+            continue
           later = set()
           for st in block[i + 1:]:
             for n in ast.walk(st):
